@@ -75,8 +75,9 @@ def _autocorr_scan(x, P, L, min_terms_var=100.0):
         v = np.where(mask, p * (1.0 - p), 0.0)
         fr = np.fft.rfft(r, m)
         fv = np.fft.rfft(v, m)
-        A = np.fft.irfft(fr * np.conj(fr), m)[1 : n // 2]
-        V = np.fft.irfft(fv * np.conj(fv), m)[1 : n // 2]
+        hi = max(2, n - 1000)  # every lag that still leaves a thousand pairs (antithetic halves sit at lag n/2)
+        A = np.fft.irfft(fr * np.conj(fr), m)[1:hi]
+        V = np.fft.irfft(fv * np.conj(fv), m)[1:hi]
         ok = V >= min_terms_var
         if not ok.any():
             continue
